@@ -265,6 +265,29 @@ def check_random(ctx: Ctx, J, dtype):
     ctx.case(("random", len(J), str(dtype)), nontrivial=True)
 
 
+def top_of_range_definitions(ctx: Ctx):
+    """finite single-precision matrices near the top of the range (40 columns of entries ~1e37, their total far above the largest
+    finite number): Random still returns a convex combination of the rows and GradDrop (all entries of one sign: nothing to
+    drop) the column sums — a finite matrix is a finite matrix, whatever its sum"""
+    rng = ctx.rng
+    m, n = 3, 40
+    sgn = rng.choice([-1.0, 1.0])
+    Jt = torch.tensor([[sgn * rng.uniform(0.5, 1.0) * 1e37 for _ in range(n)] for _ in range(m)], dtype=torch.float32)
+    rp = {"family": "top of range", "shape": [m, n], "dtype": "torch.float32", "sign": sgn}
+    ctx.case(("top-defs", sgn, float(Jt[0, 0])), nontrivial=True)
+    ctx.count("top_of_range_definitions")
+    torch.manual_seed(rng.randrange(10 ** 6))
+    st, x = run_agg(Random(), Jt)
+    lo, hi = Jt.min(dim=0).values, Jt.max(dim=0).values
+    if st != "ok" or not bool(((x >= lo * (1 + 1e-5 * sgn)) & (x <= hi * (1 - 1e-5 * sgn))).all() if sgn > 0 else ((x >= lo * (1 + 1e-5)) & (x <= hi * (1 - 1e-5))).all()):
+        ctx.violation(f"Random on a finite {m}x{n} float32 matrix with entries ~1e37: {'raised ' + str(x) if st != 'ok' else 'output outside the range of the rows'}", {**rp, "aggregator": "Random"})
+        return
+    st2, y = run_agg(GradDrop(), Jt)
+    ref = Jt.double().sum(dim=0)
+    if st2 != "ok" or float(((y.double() - ref).abs() / ref.abs()).max()) > 1e-5:
+        ctx.violation(f"GradDrop on a finite {m}x{n} float32 matrix of one sign with entries ~1e37: {'raised ' + str(y) if st2 != 'ok' else 'not the column sums'}", {**rp, "aggregator": "GradDrop"})
+
+
 def main(ctx: Ctx):
     ctx.lean_gate()
     rng = ctx.rng
@@ -277,6 +300,8 @@ def main(ctx: Ctx):
         if all(v == 0 for r in J for v in r):
             continue
         check_mgda(ctx, J, dtype)
+        if i % 12 == 5:
+            top_of_range_definitions(ctx)
         if i % 6 == 3:
             # two conflicting rows, one 30..1000 times longer than the other: the minimum-norm point of the segment is
             # interior with a tiny weight on the long row (two-row exactness clause)
